@@ -123,12 +123,18 @@ func (m *RuleManager) loadRules() error {
 	if err != nil {
 		return err
 	}
+	saved := make(map[string]struct{}, len(toSave))
 	for _, s := range toSave {
 		if err = m.storage.SaveRule(s.StoreKey(), s); err != nil {
 			return err
 		}
+		saved[s.StoreKey()] = struct{}{}
 	}
 	for _, d := range toDelete {
+		if _, ok := saved[d]; ok {
+			// the key was just rewritten with the rule that is being served under it.
+			continue
+		}
 		if err = m.storage.DeleteRule(d); err != nil {
 			return err
 		}
